@@ -23,10 +23,13 @@ def cs(s):
                 cur = []
             if ord(ch) > 127:
                 raise ValueError("non-ASCII text is outside the model")
-            parts.append('(String (Ascii.ascii_of_nat %d) EmptyString)' % ord(ch))
+            parts.append('(String.String (Ascii.ascii_of_nat %d) String.EmptyString)' % ord(ch))
     if cur:
         parts.append('"' + "".join(cur) + '"')
-    return "(" + " ++ ".join(parts) + ")%string"
+    term = parts[-1]
+    for p in reversed(parts[:-1]):
+        term = "(String.append %s %s)" % (p, term)
+    return term
 
 
 def cz(n):
@@ -154,24 +157,32 @@ def obs_connected(adj):
 
 
 # ------------------------------------------------------------------ size-aware sharding
-def run_cases_sized(cid, name, header, cases, budget=170000):
+def run_cases_sized(cid, name, header, cases, budget=60000):
     """like lib.run_coq_cases but keeps every shard below `budget` bytes of case text (one oversized case
-    gets a shard of its own).  Returns ({index: code} | None, log)."""
-    classes = [(2000, "a"), (8000, "b"), (32000, "c"), (budget, "d"), (10 ** 9, "e")]
+    gets a shard of its own); the size classes run concurrently.  Returns ({index: code} | None, log)."""
+    from concurrent.futures import ThreadPoolExecutor
+    classes = [(250, "s"), (1500, "a"), (6000, "b"), (20000, "c"), (budget, "d"), (10 ** 9, "e")]
     groups = {tag: [] for _, tag in classes}
     for i, c in enumerate(cases):
         for lim, tag in classes:
             if len(c) <= lim:
                 groups[tag].append(i)
                 break
-    out, logs = {}, []
-    for lim, tag in classes:
+
+    def one(cl):
+        lim, tag = cl
         idx = groups[tag]
         if not idx:
-            continue
+            return idx, {}, ""
         per = max(1, budget // lim) if lim < 10 ** 9 else 1
-        codes, log = lib.run_coq_cases(cid, name + tag, header, [cases[i] for i in idx], shard=per, timeout=1500)
-        logs.append(log)
+        codes, log = lib.run_coq_cases(cid, name + tag, header, [cases[i] for i in idx], shard=per, timeout=1500, jobs=5)
+        return idx, codes, log
+    out, logs = {}, []
+    with ThreadPoolExecutor(max_workers=len(classes)) as ex:
+        results = list(ex.map(one, classes))
+    for idx, codes, log in results:
+        if log:
+            logs.append(log)
         if codes is None:
             return None, "\n".join(logs)
         for k, v in codes.items():
@@ -308,8 +319,7 @@ def render_topology(rs, t, deco=True, final_newline=True):
             k = int(rs.randint(1, len(lines)))
             return [(name, lines[:k]), (name, lines[k:])]
         return [(name, lines)]
-    # the moleculetype line is split() RAW by the implementation: a comment needs white space before its ';'
-    mol = [join_tokens(rs, [t["name"], spell_int(rs, int(rs.randint(1, 4)))], deco, trail=TRAIL_WS)]
+    mol = [join_tokens(rs, [t["name"], spell_int(rs, int(rs.randint(1, 4)))], deco)]
     atom_lines = []
     for nr, (an, rn, rid) in zip(num, t["atoms"]):
         toks = [spell_int(rs, nr), gen_name(rs, 3, "_"), spell_int(rs, rid), rn, an, spell_int(rs, nr)]
